@@ -247,3 +247,59 @@ def wrap_random(g: Gen, e, levels: int = 1):
         elif k == "Sine":
             e = X.Sine(e)
     return e
+
+
+# ------------------------------------------------------------------------------ constructor pairs
+
+def makers(g: Gen) -> list:
+    """every constructor as a one-hole context, with independently drawn parameters and operands"""
+    r = g.rng
+    leaf = lambda: g.expr(r.choice([0, 0, 1]))  # noqa: E731
+    return [
+        ("Negation", lambda u: X.Negation(u)), ("Reciprocal", lambda u: X.Reciprocal(u)),
+        ("Cosine", lambda u: X.Cosine(u)), ("Sine", lambda u: X.Sine(u)),
+        ("NthPower", lambda u: X.NthPower(u, g.n())), ("NthRoot", lambda u: X.NthRoot(u, g.n())),
+        ("Exponential", lambda u: X.Exponential(u, base=r.choice(EXP_BASES))),
+        ("Logarithm", lambda u: X.Logarithm(u, base=r.choice(LOG_BASES))),
+        ("PowerL", lambda u: X.Power(u, leaf())), ("PowerR", lambda u: X.Power(leaf(), u)),
+        ("DivideL", lambda u: X.Divide(u, leaf())), ("DivideR", lambda u: X.Divide(leaf(), u)),
+        ("MinusR", lambda u: X.Minus(leaf(), u)),
+        ("Add", lambda u: X.Add(*_around(r, [u], [leaf() for _ in range(r.randint(0, 2))]))),
+        ("Multiply", lambda u: X.Multiply(*_around(r, [u], [leaf() for _ in range(r.randint(0, 2))]))),
+    ]
+
+
+def _around(r, items, others):
+    allx = others + items
+    r.shuffle(allx)
+    return allx
+
+
+def pair_patterns(g: Gen) -> list[tuple[str, object]]:
+    """outer(inner(u)) for every ordered pair of constructors, parameters drawn independently"""
+    out = []
+    ms = makers(g)
+    for no, fo in ms:
+        for ni, fi in ms:
+            out.append((f"pair:{no}/{ni}", fo(fi(g.expr(g.rng.choice([0, 1]))))))
+    return out
+
+
+def param_pairs(g: Gen) -> list[tuple[str, object]]:
+    """outer(inner(u)) for the four parameterised constructors over a full grid of parameter pairs"""
+    import math
+    ns = [1, 2, 3, 4]
+    eb = [math.e, 2, 0.5, 1]
+    lb = [math.e, 2, 0.5]
+    fam = [("NthPower", X.NthPower, ns, False), ("NthRoot", X.NthRoot, ns, False),
+           ("Exponential", X.Exponential, eb, True), ("Logarithm", X.Logarithm, lb, True)]
+    out = []
+    for no, ko, po, bo in fam:
+        for ni, ki, pi, bi in fam:
+            for a in po:
+                for b in pi:
+                    u = g.expr(g.rng.choice([0, 0, 1]))
+                    inner = ki(u, base=b) if bi else ki(u, b)
+                    outer = ko(inner, base=a) if bo else ko(inner, a)
+                    out.append((f"ppair:{no}[{a:.3g}]/{ni}[{b:.3g}]", outer))
+    return out
